@@ -316,3 +316,19 @@ K('C02', 'project-elim-all', [(GM, "        elim = self.domain.invert(attrs)", "
 K('C02', 'krondot-sorted-attrs', [(GM, "        elim = self.domain.attrs\n        for attr, Q in zip(elim, matrices):", "        elim = sorted(self.domain.attrs)\n        for attr, Q in zip(elim, matrices):")], 'requested-order')
 T('C02', 've-normalisation-split', [(GM, "    return (ans - ans.logsumexp() + np.log(total)).exp()", "    ans = ans - ans.logsumexp()\n    ans = ans + np.log(total)\n    return ans.exp()")])
 T('C02', 'project-tuple-always', [(GM, "        if type(attrs) is list:\n            attrs = tuple(attrs)\n        if hasattr(self, 'marginals'):", "        attrs = tuple(attrs)\n        if hasattr(self, 'marginals'):")])
+
+# ------------------------------------------------------------------ C06
+K('C06', 'mwem-total-always', [(MWEM, "    total = data.records if bounded else None", "    total = data.records")], 'public-sink')
+K('C06', 'aim-anneal-on-true-marginal', [(AIM, "            if np.linalg.norm(w-z, 1) <= sigma*np.sqrt(2/np.pi)*n:", "            if np.linalg.norm(w-x, 1) <= sigma*np.sqrt(2/np.pi)*n:")], 'public-sink')
+K('C06', 'mst-data-dependent-scale', [(MST, "        y = x + np.random.normal(loc=0, scale=sigma/wgt, size=x.size)", "        y = x + np.random.normal(loc=0, scale=sigma/wgt*(1 + 1/(1+x.sum())), size=x.size)")], 'public-sink')
+K('C06', 'ag-unnoised-plausibility', [(AG, "            est = Q1.T @ y[: Q1.shape[0]]\n", "            est = Q1.T @ (Q @ mu)[: Q1.shape[0]]\n")], 'public-sink')
+K('C06', 'mst-zero-noise', [(MST, "        y = x + np.random.normal(loc=0, scale=sigma/wgt, size=x.size)", "        y = x + 0*np.random.normal(loc=0, scale=sigma/wgt, size=x.size)")], 'public-sink')
+K('C06', 'aim-true-answers-logged', [(AIM, "            measurements.append((Q, y, sigma, cl))\n            z = model.project(cl).datavector()", "            measurements.append((Q, x, sigma, cl))\n            z = model.project(cl).datavector()")], 'public-sink')
+K('C06', 'mst-argmax-select', [(MST, "        idx = exponential_mechanism(wgts, epsilon, sensitivity=1.0)\n        e = candidates[idx]\n        T.add_edge(*e)", "        idx = int(np.argmax(wgts))\n        e = candidates[idx]\n        T.add_edge(*e)")], 'public-sink')
+K('C06', 'mst-skip-undo', [(MST, "    return undo_compress_fn(synth)", "    return synth")], 'domain-restored')
+K('C06', 'mst-threshold-on-records', [(MST, "        sup = y >= 3*sigma", "        sup = y >= min(3*sigma, data.records / y.size)")], 'public-sink')
+K('C06', 'aim-engine-on-projected-domain', [(AIM, "        engine = FactoredInference(data.domain,iters=1000,warm_start=True,structural_zeros=zeros)", "        engine = FactoredInference(data.project(oneway[0]).domain,iters=1000,warm_start=True,structural_zeros=zeros)")], 'domain-restored')
+K('C06', 'mwem-rounds-from-data', [(MWEM, "    if rounds is None:\n        rounds = len(data.domain)", "    if rounds is None:\n        rounds = min(len(data.domain), data.records)")], 'public-sink')
+T('C06', 'mst-noisy-helper', [(MST, "        y = x + np.random.normal(loc=0, scale=sigma/wgt, size=x.size)", "        noisy = lambda v, s: v + np.random.normal(loc=0, scale=s, size=v.size)\n        y = noisy(x, sigma/wgt)")])
+T('C06', 'aim-renamed-locals', [(AIM, "            x = data.project(cl).datavector()\n            y = x + self.gaussian_noise(sigma, n)\n            measurements.append((Q, y, sigma, cl))", "            truth = data.project(cl).datavector()\n            noisy = truth + self.gaussian_noise(sigma, n)\n            y = noisy\n            measurements.append((Q, y, sigma, cl))")])
+T('C06', 'mst-rng-alias', [(MST, "        y = x + np.random.normal(loc=0, scale=sigma/wgt, size=x.size)", "        rng = np.random\n        y = x + rng.normal(loc=0, scale=sigma/wgt, size=x.size)")])
